@@ -245,6 +245,57 @@ Proof.
     cbn; eexists; eexists; (split; [lia|split; [reflexivity|split; [reflexivity|intro Hx; discriminate Hx]]]).
 Qed.
 
+(* ---- the pruning crowding distance of the pure-Python engine (misc/pruning_cd.py) on fronts without coordinate ties.
+   Per objective (column v of the normalised remaining points): an extreme contributes +inf, any other point the
+   difference between the nearest value above and the nearest value below (order-only characterisation, as for cd).
+   The whole function: [isdef_pcd ext Xn H d] says that every remaining point that is not an extreme of the whole front
+   carries the value computed FROM SCRATCH for the remaining points H (pcd_eval = sum over the objectives of the column
+   contributions), the extremes of the whole front carry +inf; [greedy_gen] is the published procedure (remove a point of
+   smallest value, recompute the others, removed points keep their value).  The result is the loop's vector divided by
+   the number of objectives. ---- *)
+From PV Require Import Proofs.PcdDefP.
+Theorem C13_pcd_objective_matches_definition :
+  forall (v : list eq) i, Forall isfin v -> tiefree_col v -> (i < length v)%nat ->
+    ((forall j, (j < length v)%nat -> eltb (key v j) (key v i) = false) \/ (forall j, (j < length v)%nat -> eltb (key v i) (key v j) = false) ->
+       nth i (pcd_col (X := EQx) v) ENaN = PInf) /\
+    (forall jl jh, (jl < length v)%nat -> (jh < length v)%nat ->
+       eltb (key v jl) (key v i) = true -> (forall j, (j < length v)%nat -> eltb (key v j) (key v i) = true -> fle (key v j) (key v jl)) ->
+       eltb (key v i) (key v jh) = true -> (forall j, (j < length v)%nat -> eltb (key v i) (key v j) = true -> fle (key v jh) (key v j)) ->
+       exists q, nth i (pcd_col (X := EQx) v) ENaN = Fin q /\ (q == qof (key v jh) - qof (key v jl))%Q).
+Proof. exact pcd_col_definition. Qed.
+Print Assumptions C13_pcd_objective_matches_definition.
+
+Theorem C13_pcd_fallback_matches_definition :
+  forall (F : list (list eq)) m (n_remove : Z),
+    fin_matrix F m -> (1 <= m)%nat -> length (hd [] F) = m -> (m < length F)%nat -> (2 <= length F)%nat -> no_coordinate_ties F m ->
+    let n := length F in
+    let ext := extremes_of (X := EQx) F in
+    let Xn := normalize (X := EQx) false F in
+    let d0 := set_inf (X := EQx) ext (pcd_eval (X := EQx) Xn (seq 0 n)) in
+    let L := pcd_loop (X := EQx) (clamp_remove n_remove n m - 1) ext Xn d0 (seq 0 n) in
+    let d := fallback_pcd (X := EQx) F n_remove in
+    let Hf := pcd_remaining F n_remove in
+    d = map (fun x => ediv x (Fin (inject_Z (Z.of_nat m)))) L /\
+    isdef_pcd ext Xn (seq 0 n) d0 /\
+    greedy_gen n (isdef_pcd ext Xn) (clamp_remove n_remove n m - 1) (seq 0 n) d0 Hf L /\
+    isdef_pcd ext Xn Hf L /\
+    NoDup Hf /\ (length Hf + (clamp_remove n_remove n m - 1) = n)%nat /\
+    forall r p, (r < n)%nat -> ~ In r Hf -> In p Hf -> gle (nth r d ENaN) (nth p d ENaN).
+Proof. exact fallback_pcd_prunes_one_at_a_time. Qed.
+Print Assumptions C13_pcd_fallback_matches_definition.
+
+(* non-vacuity: W6 has no coordinate ties; 3 removals *)
+Example C13_pcd_definition_nonvacuous :
+  no_coordinate_ties W6 3 /\ pcd_remaining W6 3%Z = [0; 3; 4; 5]%nat /\
+  map shown (fallback_pcd (X := EQx) W6 3%Z) = [None; Some (2 # 5); Some (7 # 15); None; Some (8 # 15); None]%Q.
+Proof.
+  split; [|split; vm_compute; reflexivity].
+  intros j p q Hj Hp Hq Hne. cbn in Hp, Hq.
+  destruct j as [|[|[|j]]]; try lia;
+    (destruct p as [|[|[|[|[|[|p]]]]]]; try lia; destruct q as [|[|[|[|[|[|q]]]]]]; try lia; try congruence;
+     vm_compute; ((left; reflexivity) || (right; reflexivity))).
+Qed.
+
 (* ---- known finding metrics/dup-eps-absolute: the metrics are defined on range-normalised objectives, yet the duplicate filter of
    FunctionalDiversity._do compares raw distances with the absolute tolerance 1e-32.  The same front in two units: with the
    objectives multiplied by 2^-120 the two boundary points other than the first are filtered as "duplicates" and get 0
